@@ -16,8 +16,8 @@ import ast
 import numpy as np
 import sympy as sp
 
-from ..core import norm, calls_in, kwarg, walk_no_nested
-from ..symx import SymEval, Path, SymObj, symarray, is_zero, equal, Opaque, module_aliases, arr
+from ..core import norm, calls_in, kwarg, walk_no_nested, AnalysisError
+from ..symx import SymEval, Path, SymObj, PyStub, symarray, is_zero, is_arr, equal, Opaque, WouldRaise, module_aliases, arr
 from .. import guards
 
 RK = 'atomman/mep/integrator/rungekutta.py'
@@ -61,6 +61,20 @@ def linear_order(ctx, rel, name, order):
     rcalls = calls_in(fn, 'ratefxn')
     ctx.ob('LINEAR-ORDER', loc, '**kwargs forwarded to every rate evaluation',
            all(any(k.arg is None for k in c.keywords) for c in rcalls) and len(rcalls) >= 1, node=fn, key='kwargs forwarded')
+
+
+def pure_step(ctx):
+    """integrators and the string step return new coordinates; they never write to the coordinates they were given"""
+    from .. import effects
+    n = 0
+    for rel, q, params in ((EU, 'euler', {'coord'}), (RK, 'rungekutta', {'coord'}), (CD, 'central_difference', {'coord'}), (ISM, 'ISMPath.step', {'self'}), (ISM, 'ISMPath.interpolate_path', {'self'})):
+        n += 1
+        fn = ctx.fn(rel, q)
+        muts, eff = effects.param_mutations(fn, params, summaries={'ratefxn': ('fresh',), 'fxn': ('fresh',), 'self.integratorfxn': ('fresh',), 'ISMPath': ('fresh',), 'CubicSpline': ('fresh',), 'aslist': ('fresh',),
+                                                                  '.grad_energy': ('fresh',), '.interpolate_path': ('fresh',)})
+        ctx.ob('PURE-STEP', '%s::%s' % (rel, q), 'the coordinates passed in (%s) are not written to: the result is a new array, so the caller can take another step from the same point' % ', '.join(sorted(params)),
+               not muts, '; '.join('%s at line %d' % (w, nd.lineno) for nd, r, w in muts), node=muts[0][0] if muts else fn, key='pure %s' % q)
+    ctx.floor('PURE-STEP', n, 5)
 
 
 def cdiff(ctx):
@@ -239,10 +253,73 @@ def string_step(ctx):
            str(segs), node=step)
 
 
+def step_model(ctx):
+    """ISMPath.step evaluated as a whole on a symbolic four-image path with recording stubs"""
+    cls = ctx.fn(ISM, 'ISMPath')
+    step = ctx.fn(ISM, 'ISMPath.step')
+    loc = ISM + '::ISMPath.step'
+    aliases = module_aliases(ctx.mod(ISM))
+    c = symarray('c', (4, 2), real=True)
+    h = sp.Symbol('h', positive=True)
+    G = lambda row, j: sp.Function('g%d' % j)(*row)
+    for tag, climb in (('plain step', None), ('climbing step, image 2', 2)):
+        made, icalls = [], []
+
+        def grad(coord, **k):
+            return np.array([[G(row, j) for j in range(2)] for row in np.asarray(coord, dtype=object)], dtype=object)
+
+        def integ(rate, coord, timestep, **kw):
+            icalls.append((np.array(coord, dtype=object), timestep, dict(kw)))
+            return np.asarray(coord, dtype=object) + timestep * rate(np.asarray(coord, dtype=object), **kw)
+
+        def mk(coord, energyfxn=None, gradientfxn='cdiff', gradientkwargs=None, integratorfxn='rk', **extra):
+            o = SymObj(cls, {'coord': np.asarray(coord, dtype=object), 'energyfxn': energyfxn, 'gradientfxn': gradientfxn, 'gradientkwargs': gradientkwargs if gradientkwargs is not None else {},
+                             'integratorfxn': integratorfxn, 'arccoord': arr([0] + [sp.Symbol('s%d' % i, positive=True) for i in range(1, len(coord))])}, 'path%d' % len(made))
+            made.append(o)
+            return o
+
+        class Spline(PyStub):
+            def __init__(self, a, y):
+                self.a, self.y = a, y
+
+            def __call__(self, x):
+                return np.array([[sp.Function('spl%d' % j)(xi) for j in range(2)] for xi in np.ravel(x)], dtype=object)
+        splines = []
+        tang = symarray('tau', (4, 2), real=True)
+        selfobj = SymObj(cls, {'coord': c.copy(), 'energyfxn': 'EFN', 'gradientfxn': 'GFN', 'gradientkwargs': {'shift': 'SHIFT'}, 'integratorfxn': integ, 'grad_energy': grad, 'unittangent': tang,
+                               'default_timestep': sp.Symbol('h0', positive=True)}, 'self')
+        ev = SymEval(aliases)
+        ev.globals = {'ISMPath': mk, 'CubicSpline': lambda a, y: (splines.append(Spline(a, y)) or splines[-1]), 'aslist': lambda v: list(v) if isinstance(v, (list, tuple)) else ([int(x) for x in np.ravel(v)] if is_arr(v) else [v])}
+        ev.np_override = {'numpy.linspace': lambda a, b, n_: arr([a + (b - a) * sp.Rational(i, int(n_) - 1) for i in range(int(n_))]), 'numpy.any': lambda v: False}
+        try:
+            r = [q for q in ev.run_fn(step, [selfobj], dict(timestep=h, climbindex=climb)) if q.done == 'return']
+        except (Opaque, WouldRaise) as e:
+            raise AnalysisError('ISMPath.step on the model path (%s): %s' % (tag, e))
+        ctx.need(len(r) == 1, 'ISMPath.step does not reduce to one path (%s)' % tag)
+        out = r[0].ret
+        g = grad(c)
+        want_i = c - h * g
+        if climb is not None:
+            dot = sum(g[climb, j] * tang[climb, j] for j in range(2))
+            want_i = want_i.copy()
+            want_i[climb] = c[climb] + h * (-g[climb] + 2 * dot * tang[climb])
+        inter = made[0] if made else None
+        ok = inter is not None and equal(inter.attrs['coord'], want_i)
+        ctx.ob('STRING-STEP', loc, '%s: images are advanced by the integrator from their own coordinates along -grad E%s with the given timestep' % (tag, '' if climb is None else ' (the climbing image along -grad E + 2 (grad E·τ) τ with its own tangent)'),
+               bool(ok), node=step, key='model advance ' + tag)
+        ok = isinstance(out, SymObj) and out is made[-1] and len(made) == 2 and out.attrs['energyfxn'] == 'EFN' and out.attrs['gradientfxn'] == 'GFN' and out.attrs['gradientkwargs'] == {'shift': 'SHIFT'} \
+            and inter.attrs['energyfxn'] == 'EFN' and inter.attrs['gradientfxn'] == 'GFN' and inter.attrs['gradientkwargs'] == {'shift': 'SHIFT'}
+        ctx.ob('STRING-STEP', loc, '%s: the returned path evaluates energies and gradients with the functions and gradient settings of the path the step was taken from' % tag, bool(ok),
+               'returned path: energy %s, gradient %s %s' % ((out.attrs.get('energyfxn'), out.attrs.get('gradientfxn'), out.attrs.get('gradientkwargs')) if isinstance(out, SymObj) else (None, None, None)), node=step, key='model settings ' + tag)
+        ok = len(splines) == 1 and inter is not None and equal(np.asarray(splines[0].y, dtype=object), inter.attrs['coord']) and equal(np.asarray(splines[0].a, dtype=object), inter.attrs['arccoord'])
+        ctx.ob('STRING-STEP', loc, '%s: the new images are interpolated along the advanced string (spline through the advanced images over their arc lengths)' % tag, bool(ok), node=step, key='model spline ' + tag)
+        ctx.ob('STRING-STEP', loc, '%s: the path the step was taken from keeps its coordinates' % tag, equal(selfobj.attrs['coord'], c), node=step, key='model operand ' + tag)
+
+
 def run(ctx):
     ctx.explanation = ('C20: integrator update formulas are extracted from the syntax tree with the rate function bound to the linear law '
                        'and compared, as polynomials in h·λ, with the Taylor polynomial of exp; the central difference is applied to a generic '
                        'cubic and its error expanded in the step; default-argument feasibility is a contradiction rule on the constructors; '
                        'the string step\'s rate laws, tangents and image selection are extracted and compared with the documented formulas. '
                        'Not decided: convergence to the minima/saddle.')
-    ctx.run_rules([lambda c: linear_order(c, EU, 'euler', 1), lambda c: linear_order(c, RK, 'rungekutta', 4), cdiff, default_feasible, string_step])
+    ctx.run_rules([lambda c: linear_order(c, EU, 'euler', 1), lambda c: linear_order(c, RK, 'rungekutta', 4), cdiff, default_feasible, string_step, pure_step, step_model])
